@@ -260,7 +260,7 @@ PROPS.update({
         ],
     },
     "C15": {
-        "level_text": "Fault enumeration on reader inputs: ALL byte strings of length <= 4 (thorough <= 6) over a 12-symbol alphabet incl. the empty input; ALL sequences of <= 5 (6) lines from per-format line menus with/without final newline; for small valid files of every reader every prefix, every single-byte deletion, every position x substitution/insertion of a 19-byte alphabet (thorough: all 256 byte values), line-level and token-level structural faults (ragged rows, header without matrix, duplicated symbol line, missing final newline, numeric overflow tokens), runs of >= 96 bytes of valid 2/3/4-byte UTF-8 characters inserted at every position with every alignment (pad 0..3), pairs of faults at line-structure positions (thorough), the bundled test files as bases (thorough); each under chunkings {whole, 1-byte chunks, one cut at the fault}. Reader::new and every next() run under catch_unwind; the stream allows 10*(len+10) fill_buf calls (hang), len+2 records before Err/None (livelock), 20 s watchdog.",
+        "level_text": "Fault enumeration on reader inputs: ALL byte strings of length <= 4 (thorough <= 6) over a 12-symbol alphabet incl. the empty input; ALL sequences of <= 5 (6) lines from per-format line menus with/without final newline; for small valid files of every reader every prefix, every single-byte deletion, every position x substitution/insertion of a 19-byte alphabet (thorough: all 256 byte values), line-level and token-level structural faults (ragged rows, header without matrix, duplicated symbol line, missing final newline, numeric overflow tokens, every digit run replaced by an 18-number menu), ALL 1296 two-character TRANSFAC line tags over [A-Z0-9] x 4 line tails alone and in front of every line of the TRANSFAC base files, runs of >= 96 bytes of valid 2/3/4-byte UTF-8 characters inserted at every position with every alignment (pad 0..3), pairs of faults at line-structure positions (thorough), the bundled test files as bases (thorough); each under chunkings {whole, 1-byte chunks, one cut at the fault}. Reader::new and every next() run under catch_unwind; the stream allows 10*(len+10) fill_buf calls (hang), len+2 records before Err/None (livelock), 20 s watchdog.",
         "level_note": "Trusted: catch_unwind isolation, the scripted BufRead. Two further next() calls after the first error and one after end of input are probed for panics only (signature phase after-error / after-end). I/O errors of the stream are not injected.",
         "technique": "exhaustive enumeration of short inputs and of single/double faults in valid files x chunkings, monitors: catch_unwind, fill_buf budget, record horizon, watchdog",
         "level": "fault_enumeration",
@@ -270,9 +270,9 @@ PROPS.update({
         # the monitored driver attributes it to the breadcrumb case, confirms it by replaying it alone twice and resumes
         "monitors": {
             "quick": [{"name": "rel", "variant": "rel"}, {"name": "chk", "variant": "chk"},
-                      {"name": "dbg", "variant": "dbg", "only": "long_runs,short_lines"}],
+                      {"name": "dbg", "variant": "dbg", "only": "long_runs,short_lines,tag_lines"}],
             "thorough": [{"name": "rel", "variant": "rel"}, {"name": "chk", "variant": "chk"},
-                         {"name": "dbg", "variant": "dbg", "only": "long_runs,short_lines,structural"}],
+                         {"name": "dbg", "variant": "dbg", "only": "long_runs,short_lines,structural,tag_lines"}],
         },
         "wall": {"quick": 150, "thorough": 3000},
         "rule": "All strings <= 4 (6) bytes over 12 symbols, all <= 5 (6)-line sequences over per-format menus, every prefix/deletion/substitution/insertion and structural fault of small valid files, times three chunkings; non-trivial = input differs from a valid file.",
